@@ -19,7 +19,7 @@ SQ = "cozy_chess_types::square::Square"
 
 ITER_TERMINALS = ("fold", "any", "all", "for_each", "find", "collect", "count", "try_fold", "try_for_each", "position")
 ITER_ADAPTORS = ("map", "filter", "copied", "cloned", "flatten", "filter_map", "enumerate", "flat_map")
-OPT_COMBINATORS = ("map", "map_or", "and_then", "is_some_and", "unwrap_or", "filter", "map_or_else", "ok_or", "transpose")
+OPT_COMBINATORS = ("map", "map_or", "and_then", "is_some_and", "unwrap_or", "filter", "map_or_else", "ok_or", "transpose", "and", "or")
 BOOL_COMBINATORS = ("then_some", "then")
 
 
@@ -878,6 +878,16 @@ class Rewriter:
                 self.blocks[N]["stmts"].append(self.assign_pl(dest, none, sp))
             else:
                 self.blocks[N]["stmts"].append(self.assign_pl(dest, self.use({"k": "const", "ty": "bool", "v": 0}), sp))
+        elif m in ("and", "or"):
+            # a.and(b): b if a is Some, else None;  a.or(b): a if it is Some, else b  (b is evaluated by the caller)
+            dv = self.new_local("?")
+            pre.append(self.assign(dv, self.use(t["args"][1]), sp))
+            if m == "and":
+                self.blocks[S]["stmts"].append(self.assign_pl(dest, self.use(self.mv(dv)), sp))
+                self.blocks[N]["stmts"].append(self.assign_pl(dest, none, sp))
+            else:
+                self.blocks[S]["stmts"].append(self.assign_pl(dest, some(self.mv(x)), sp))
+                self.blocks[N]["stmts"].append(self.assign_pl(dest, self.use(self.mv(dv)), sp))
         elif m == "unwrap_or":
             dv = self.new_local("?")
             pre.append(self.assign(dv, self.use(t["args"][1]), sp))
